@@ -22,7 +22,7 @@ ap.add_argument('--needs', default='')
 a = ap.parse_args()
 
 patch = os.path.join(a.seeddir, 'patch.diff')
-demos = glob.glob(os.path.join(a.seeddir, 'demo_*.py'))
+demos = glob.glob(os.path.join(a.seeddir, 'demo_*.py')) + glob.glob(os.path.join(a.seeddir, 'demo.py'))
 assert os.path.exists(patch) and demos, 'patch.diff / demo_*.py missing'
 demo = demos[0]
 name = a.name or os.path.basename(a.seeddir.rstrip('/'))
